@@ -475,8 +475,10 @@ def _prep_iterators(mol: Molecules, shape: tuple[int, int, int], scale: float):
     center = (np.array(shape) - 1.0) / 2.0
     starts = intpos - center.astype(np.int32)
     stops = starts + shape
+    # NOTE: `starts` is calculated using the integer part of the center, so the same
+    # integer part must be used for the output center (they differ for even shapes).
     mtxs = _compose_affine_matrices(
-        center, mol.rotator.inv(), output_center=center + residue
+        center, mol.rotator.inv(), output_center=np.floor(center) + residue
     )
 
     return starts, stops, mtxs
